@@ -119,7 +119,9 @@ func groupRun(tr *tracer.T, rng *rand.Rand, nOps int, lagLeader bool) {
 	var mu sync.Mutex
 	var writes []gWrite
 	var reads []gRead
-	ctxT := func() (context.Context, context.CancelFunc) { return context.WithTimeout(context.Background(), 10*time.Second) }
+	ctxT := func() (context.Context, context.CancelFunc) {
+		return context.WithTimeout(context.Background(), 10*time.Second)
+	}
 	var uniq atomic.Int64
 	doWrite := func(lr *rand.Rand, node int) {
 		e := c.Engines[node]
